@@ -141,7 +141,7 @@ def build():
     sf["xp_findall"] = lambda x, n: SR.wrap(xfind(x.term, nv.ref(n)))
     sf["xp_compile"] = lambda s_: XP.wrap(xcomp(s_.term))
     A(Contract(f"{XM_}:ASTXpath.findall", params={"self": "XPathObj", "root": "Ref"}, returns="Seq[Ref]", props=["C07"], trusted=True,
-               trusted_reason="the top-down search (work-set loops over dict-as-ordered-set); its agreement with match() is covered by the bounded run rt.c07",
+               trusted_reason="callee summary for the find / findall front-ends (result as an abstract function of path and root); the body is proved below as findall#body against the top-down fold TD; the agreement of TD with match() is covered by the bounded run rt.c07",
                ensures=["result == xp_findall(self, root)"]))
     world.exc_parents["ASTXpathDefinitionError"] = "Exception"
 
@@ -461,7 +461,7 @@ def legacy_matcher(world, lib, reg, nv):
     A = reg.add
     P = ["C20"]
     A(Contract(f"{LXM}:legacy-ancestors", params={"self": "Ref"}, returns="Seq[Ref]", props=P, trusted=True,
-               trusted_reason="AwareASTNode.ancestors(): the chain of .parent links (a 4-line generator; the parent slots themselves are the state of C18)",
+               trusted_reason="AwareASTNode.ancestors(): the chain of .parent links, proved in contracts.legacy_chain (result == lchain(self)); the parent slots themselves are the state of C18",
                ensures=["result == l_chain(self)"]))
     A(Contract(f"{LXM}:_match_node_xpath", params={"node": "Opt[Ref]", "elements": "Seq[LXEl]"}, returns="bool", props=P,
                ensures=["result == LMX(node, elements)"],
